@@ -69,6 +69,7 @@ type CallSpec struct {
 
 type Contract struct {
 	Key        string
+	Variant    string // non-empty: an additional contract of the function, verified against the body only; call sites use the main contract (callers are not checked against this variant's requires: listed as an assumption)
 	Pkg        *packages.Package
 	Fn         *types.Func
 	Decl       *ast.FuncDecl
@@ -214,7 +215,9 @@ func LoadProgram(repo string) (*Program, error) {
 	return p, nil
 }
 
-var reFuncHdr = regexp.MustCompile(`^func\s+(?:\(\s*(?:\w+\s+)?\*?(\w+)\s*\)\s*)?(\w+)\s*$`)
+// optional third group: `func (t *T) m variant <name>` — an additional contract of the same function
+// that is only verified against the body, never used at call sites (see Contract.Variant)
+var reFuncHdr = regexp.MustCompile(`^func\s+(?:\(\s*(?:\w+\s+)?\*?(\w+)\s*\)\s*)?(\w+)(?:\s+variant\s+(\w+))?\s*$`)
 
 func (p *Program) readContracts(pkg *packages.Package) error {
 	for i, f := range pkg.Syntax {
@@ -301,10 +304,13 @@ func (p *Program) readContractFile(pkg *packages.Package, file *ast.File, fname 
 				if fn == nil {
 					return &BindError{fmt.Sprintf("%s:%d: no type information for %s", fname, line, key)}
 				}
+				if m[3] != "" {
+					key = key + "~" + m[3]
+				}
 				if _, dup := p.Contracts[key]; dup {
 					return fmt.Errorf("%s:%d: duplicate contract for %s", fname, line, key)
 				}
-				cur = &Contract{Key: key, Pkg: pkg, Fn: fn, Decl: decl, Ints: "bv", Loops: map[int]*LoopSpec{}, Opaque: map[string]bool{}, Reveal: map[string]bool{}, Line: line, File: fname, Lemma: isLemma}
+				cur = &Contract{Variant: m[3], Key: key, Pkg: pkg, Fn: fn, Decl: decl, Ints: "bv", Loops: map[int]*LoopSpec{}, Opaque: map[string]bool{}, Reveal: map[string]bool{}, Line: line, File: fname, Lemma: isLemma}
 				p.Contracts[key] = cur
 				p.Order = append(p.Order, key)
 				continue
@@ -481,7 +487,9 @@ func (p *Program) bind(c *Contract) error {
 				ast.Inspect(c.Decl.Body, func(nd ast.Node) bool {
 					if call, ok := nd.(*ast.CallExpr); ok && calleeName(call) == g.Callee {
 						n++
-						if n == g.Ord {
+						if n == g.Ord || (g.Ord == 0 && n == 1) {
+							// `#all` (Ord 0): after every executed call of the callee (all iterations
+							// of an unrolled loop); type-checked in the scope of the first call site
 							pos = call.End()
 						}
 					}
